@@ -4,8 +4,8 @@
   * `SameChars t t'` — the two texts have the same scalar values in the same order
     (the code-unit positions and lengths may differ); `sameChars_utf16_utf8`: a `&[u16]`
     and the `&str` of its lossy decoding are such a pair.
-  * `Expand.unitize` depends on the scalar values only (`unitize_congr`), is well formed,
-    has the same raw classes, and satisfies the FSI-width proviso for every data source.
+  * `Expand.unitize` depends on the scalar values only (`unitize_congr`), is well formed and
+    has the same raw classes.
   * `contract_expand` — reading an expanded vector at the character starts gives the vector back.
   * the `pureLtr` / `hasIso` flags of `compute_initial_info` are a function of the raw classes
     (`flagsOf`).
@@ -97,11 +97,6 @@ theorem unitize_WF (t : Text) : (Expand.unitize t).WF := by
   · intro s hs
     rw [unitize_unit_len t s hs]; rfl
 
-/-- one-unit-per-character texts satisfy the FSI-width proviso whatever the data source -/
-theorem unitize_FSIWidth (ds : DataSource) (t : Text) : C02.FSIWidth ds (Expand.unitize t) := by
-  intro s hs _
-  rw [unitize_unit_len t s hs]; rfl
-
 /-! ### `contract` after `expand` -/
 
 theorem flatMap_expand_getD {α} (d : α) : ∀ (segs : List Seg) (xs A : List α) (e : Nat),
@@ -147,8 +142,8 @@ def flagStep (split : Bool) (f : Bool × Bool) (c : BidiClass) : Bool × Bool :=
 
 def flagsOf (split : Bool) (cs : List BidiClass) : Bool × Bool := cs.foldl (flagStep split) (true, false)
 
-theorem iiStep_flags (ds : DataSource) (enc : Enc) (split : Bool) (dflt : Option Nat) (st : IIState) (s : Seg) :
-    ((iiStep ds enc split dflt st s).pureLtr, (iiStep ds enc split dflt st s).hasIso)
+theorem iiStep_flags (ds : DataSource) (T : Text) (split : Bool) (dflt : Option Nat) (st : IIState) (s : Seg) :
+    ((iiStep ds T split dflt st s).pureLtr, (iiStep ds T split dflt st s).hasIso)
       = flagStep split (st.pureLtr, st.hasIso) (ds.cls s.cp) := by
   simp only [iiStep]
   generalize ds.cls s.cp = c
@@ -157,9 +152,9 @@ theorem iiStep_flags (ds : DataSource) (enc : Enc) (split : Bool) (dflt : Option
   all_goals
     cases st.stack <;> simp <;> (try split) <;> simp
 
-theorem foldl_flags (ds : DataSource) (enc : Enc) (split : Bool) (dflt : Option Nat) (l : List Seg) :
+theorem foldl_flags (ds : DataSource) (T : Text) (split : Bool) (dflt : Option Nat) (l : List Seg) :
     ∀ st : IIState,
-      ((l.foldl (iiStep ds enc split dflt) st).pureLtr, (l.foldl (iiStep ds enc split dflt) st).hasIso)
+      ((l.foldl (iiStep ds T split dflt) st).pureLtr, (l.foldl (iiStep ds T split dflt) st).hasIso)
         = (l.map (fun s => ds.cls s.cp)).foldl (flagStep split) (st.pureLtr, st.hasIso) := by
   induction l with
   | nil => intro st; rfl
@@ -172,7 +167,7 @@ theorem foldl_flags (ds : DataSource) (enc : Enc) (split : Bool) (dflt : Option 
 theorem last_flags (ds : DataSource) (t : Text) (dflt : Option Nat) (split : Bool) :
     ((computeInitialInfo ds t dflt split).lastPureLtr, (computeInitialInfo ds t dflt split).lastHasIso)
       = flagsOf split (C02.raw ds t) := by
-  have := foldl_flags ds t.enc split dflt t.segs { paraLevel := dflt }
+  have := foldl_flags ds t split dflt t.segs { paraLevel := dflt }
   simpa [computeInitialInfo, flagsOf, C02.raw] using this
 
 end UBidi.Props.C09
